@@ -2,15 +2,20 @@
  * One translation unit: env (alloc, error stub, BSD sockets) + the real psocketaddress.c
  * and psocket.c (scratch copies; loop contracts injected).  fcntl is variadic in libc and
  * is bound to a fixed-arity contract function for this unit only. */
+/* the real sources come FIRST (see ghost_decls.h): their preprocessing context is the library's own */
+#include <fcntl.h>            /* declares the variadic fcntl before the name is rebound; defines no errno macro */
+#include <sys/types.h>
+#include <sys/socket.h>       /* likewise for the seven calls with sockaddr parameters (see ghost_decls.h); no errno macro either */
+#define fcntl verif_fcntl
+#include "ghost_decls.h"
+#include "psocket.c"           /* first: the other two sources include <errno.h> themselves and would lend it to psocket.c */
+#include "psocketaddress.c"
+#include "psysclose-unix.c"
 #include "env/verif.h"
 #include "env/alloc.c"
 #include "env/perror_stub.c"
 #include "env/sockets.c"
 #include <signal.h>
-#define fcntl verif_fcntl
-#include "psocketaddress.c"
-#include "psysclose-unix.c"
-#include "psocket.c"
 
 /* ------------------------------------------------------------------ p_error_get_io_from_system
  * contract proved of the real perror.c in unit errmap (props/sock/errmap.c), used here by replacement */
